@@ -534,3 +534,39 @@ def cache_name_discipline(chk, rule):
                    f"`{fq}` reads `{_n(a)}` of a Col object kept in the cache and uses it as a column name (`{_n(parent(a))[:80]}`): after a "
                    "rename / join suffix that is the creation-time name, not the current one - names reported and resolved by the table go stale")  # fmt: skip
     return n
+
+
+def backend_name_discipline(chk, rule, sib):
+    """in the compilers a column's *current* name is the label / frame name looked up by uuid (`sqa_expr[uid].name`,
+    `name_in_df[uid]`); the `.name` of a Col object taken from the verb node or from the grouping state is its
+    creation-time name (stale after rename / join suffix)"""
+    from .source import norm as _n
+
+    n = 0
+    for sname in ("sql", "polars"):
+        cfg = sib.cfgs[sname]
+        f = cfg.func
+        subj = cfg.subject
+        col_sources = {f"{subj}.select", f"{subj}.group_by", "query.partition_by", f"{subj}.on"}
+        for g in ast.walk(f):
+            gens = []
+            if isinstance(g, (ast.ListComp, ast.SetComp, ast.GeneratorExp, ast.DictComp)):
+                gens = [(x.target, x.iter, g) for x in g.generators]
+            elif isinstance(g, ast.For):
+                gens = [(g.target, g.iter, g)]
+            for target, it, scope in gens:
+                if _n(it) not in col_sources or not isinstance(target, ast.Name):
+                    continue
+                var = target.id
+                for a in ast.walk(scope):
+                    if isinstance(a, ast.Attribute) and a.attr == "name" and isinstance(a.value, ast.Name) and a.value.id == var and isinstance(a.ctx, ast.Load):
+                        n += 1
+                        chk.fail(rule, cfg.module, a, f"{sname} compile_ast: {_n(parent(a))[:70]}",
+                                 f"`{_n(a)}` is the creation-time name of a Col object from `{_n(it)}`; the {sname} compiler must use the column's current "
+                                 "name (the label / frame name looked up by `_uuid`): after a rename the wrong column is kept, dropped or overwritten")  # fmt: skip
+                # the positive instances: uuid-based lookups of the same variable
+                for a in ast.walk(scope):
+                    if isinstance(a, ast.Attribute) and a.attr == "_uuid" and isinstance(a.value, ast.Name) and a.value.id == var:
+                        n += 1
+                        chk.ok(rule, cfg.module, a, f"{sname} compile_ast: {_n(parent(a))[:70]}", "identity-based lookup")
+    return n
